@@ -13,6 +13,9 @@
 //!         op 0/1 WithRate on Vec<bool> / Bitstring (child = [flipped at i, flipped at j]); op 2 UniformXo on [Bitstring; 2],
 //!         op 3 UniformXo on [Vec<bool>; 2], op 4 UniformXo on (Bitstring, Bitstring) (complementary parents; child = [taken from
 //!         the second parent at i, at j]); op 5 Bitstring::random_with_probability (child = [bit i, bit j]); op 6 WithOneOverLength
+//!  12   very long genomes, every gene of every child pooled   [12, op, len, rate_num, rate_den]
+//!         op 0 WithOneOverLength Bitstring, 1 WithOneOverLength Vec<bool>, 2 WithRate Bitstring, 3 WithRate Vec<bool>;
+//!         observation [0, [[[1], number of flipped genes], [[0], number of unflipped genes]]]
 //!  10   Umad on Plushy (genes = PushInt tags; new genes from a gene generator with close markers)
 use std::collections::BTreeMap;
 
@@ -204,7 +207,8 @@ fn run(input: &Tree) -> Option<Tree> {
                     let instrs = vec![PushInstruction::push_int(40), PushInstruction::push_int(41)];
                     let gg = instrs.into_distribution().ok()?.into_gene_generator_with_close_probability(0.25);
                     let u = mk!(gg);
-                    let parent = Plushy::new(g.iter().map(|t| PushGene::Instruction(PushInstruction::push_int(*t))));
+                    // parent gene 50 = a close marker, anything else a tagged PushInt
+                    let parent = Plushy::new(g.iter().map(|t| if *t == 50 { PushGene::Close } else { PushGene::Instruction(PushInstruction::push_int(*t)) }));
                     hist(n, seed, |rng| u.mutate(parent.clone(), rng).unwrap().get_genes().iter().map(gene_code).collect())
                 }
             }
@@ -253,6 +257,35 @@ fn run(input: &Tree) -> Option<Tree> {
                 }
                 _ => return None,
             }
+        }
+        12 => {
+            if p.len() != 5 {
+                return None;
+            }
+            let op = p.get(1)?.int()?;
+            let len = p.get(2)?.usize()?;
+            if len == 0 || len > (1 << 20) || n > 5000 {
+                return None;
+            }
+            let r = ratio(p.get(3)?, p.get(4)?)?;
+            let parent: Vec<bool> = (0..len).map(|k| k % 3 == 0).collect();
+            let mut rng = AnyRng::new(seed);
+            let (mut flipped, mut total) = (0u64, 0u64);
+            for _ in 0..n {
+                let child: Vec<bool> = match op {
+                    0 => WithOneOverLength.mutate(Bitstring { bits: parent.clone() }, &mut rng).ok()?.bits,
+                    1 => WithOneOverLength.mutate(parent.clone(), &mut rng).ok()?,
+                    2 => WithRate::new(r as f32).mutate(Bitstring { bits: parent.clone() }, &mut rng).ok()?.bits,
+                    3 => WithRate::new(r as f32).mutate(parent.clone(), &mut rng).ok()?,
+                    _ => return None,
+                };
+                if child.len() != len {
+                    return Some(tl![A(0), L(vec![tl![tl![A(2)], A(1)]])]);
+                }
+                flipped += child.iter().zip(&parent).filter(|(c, p)| c != p).count() as u64;
+                total += len as u64;
+            }
+            tl![A(0), L(vec![tl![tl![A(1)], a(flipped)], tl![tl![A(0)], a(total - flipped)]])]
         }
         6 => {
             if p.len() != 3 {
@@ -348,12 +381,19 @@ fn gen_c11(tier: &str, rng: &mut Sm) -> Gen {
                     if len <= 5 {
                         g.inputs.push(case(rng, n / 3, tl![A(5), a(an), a(ad), a(dn), a(dd), a(ek), a(en), a(ed), tv(&bits), tv(&[0, 1])]));
                         g.inputs.push(case(rng, n / 3, tl![A(10), a(an), a(ad), a(dn), a(dd), a(ek), a(en), a(ed), tv(&parent), tv(&[40, 41, 50])]));
+                        // Plushy parents with close markers among (or instead of) their instructions
+                        if len >= 1 && len <= 4 {
+                            let closes: Vec<i64> = vec![50; len];
+                            let mixed: Vec<i64> = (0..len as i64).map(|i| if i % 2 == 0 { 50 } else { i }).collect();
+                            g.inputs.push(case(rng, n / 3, tl![A(10), a(an), a(ad), a(dn), a(dd), a(ek), a(en), a(ed), tv(&closes), tv(&[40, 41, 50])]));
+                            g.inputs.push(case(rng, n / 3, tl![A(10), a(an), a(ad), a(dn), a(dd), a(ek), a(en), a(ed), tv(&mixed), tv(&[40, 41, 50])]));
+                        }
                     }
                 }
             }
         }
     }
-    g.meta("generator", "bit vectors, bitstrings, i64 vectors (tagged, `!` = bitwise not), tagged gene vectors and Plushy genomes of length 0..12; flip rates {0, 1/4, 1/2, 1, 3/16, 15/16} and 1/len; UMAD (add, del) in {(0,0), (1/4,1/4), (1/2,1/8), (1,0), (0,1), (1/2,1), (1,1/2), (3/4,3/7)} x empty-genome handling {disabled, explicit rate, default}");
+    g.meta("generator", "bit vectors, bitstrings, i64 vectors (tagged, `!` = bitwise not), tagged gene vectors and Plushy genomes of length 0..12; flip rates {0, 1/4, 1/2, 1, 3/16, 15/16} and 1/len; UMAD (add, del) in {(0,0), (1/4,1/4), (1/2,1/8), (1,0), (0,1), (1/2,1), (1,1/2), (3/4,3/7)} x empty-genome handling {disabled, explicit rate, default}; Plushy parents made of / interleaved with close markers");
     g
 }
 
@@ -386,6 +426,14 @@ fn gen_c12(tier: &str, rng: &mut Sm) -> Gen {
         g.inputs.push(case(rng, n, tl![A(7), A(5), a(pn), a(pd)]));
     }
     g.inputs.push(case(rng, 200, tl![A(7), A(0), A(1), A(2)]));
+    // very long genomes: the per-gene flip frequency pooled over all genes of all children (1/length must not
+    // saturate or lose precision for genomes of 2^16 genes and more)
+    for (op, len, rn, rd, k) in [(0i64, (1usize << 17) + 1, 1i64, 1i64, 300usize), (1, 1 << 17, 1, 1, 300), (0, 1 << 18, 1, 1, 200), (2, 100_000, 1, 4096, 40), (3, 65_537, 1, 1024, 60)] {
+        if tier != "thorough" && op == 3 {
+            continue;
+        }
+        g.inputs.push(case(rng, k, tl![A(12), a(op), au(len), a(rn), a(rd)]));
+    }
     // long genomes (far too many children to tabulate): one position pair per case - neighbours, a word apart
     // (63, 64, 65, 128), far apart - judged against the pair marginals (independence) of the model
     let pairs: &[(usize, usize, usize)] = &[(65, 0, 64), (130, 1, 65), (130, 0, 128), (200, 63, 127), (100, 98, 99), (257, 0, 256), (96, 31, 63), (96, 32, 64)];
